@@ -155,3 +155,13 @@ prop(
     level_text="In generated histories (existing and non-existing headers / transactions, 1-3 proven peers, fetch ticks with real or fast timer periods, serving peer answering invalidly, not answering until the timeout, or disconnecting before the answer) every status sequence is a path added -> fetching(first_sent constant) -> fetched | not_found -> added ..., not_found appears only after a valid missing report, an existing item is fetched within 45 rounds while an honest proven peer is connected, and every committed answer names a stored header whose block contains the transaction.",
     level_note="'never lost' is restated as bounded progress (45 rounds; 110 for the timeout mode); fork-switch re-pointing of a stored transaction is exercised by C04's fetch_tx scenarios",
 )
+
+prop(
+    "C02", "exploration",
+    rule="one evaluation = one delivered message (INVALID ones judged by a before/after dump of the index / transaction / header keyspaces) or one stored transaction / header checked against the chain at the end of a scenario; "
+         "a cell = (operator, outcome)",
+    sizes=tiers(16, 40, 60, 16, 2500, 900, min_evals=3000, min_cells=15),
+    technique="runtime monitoring: RocksDB keyspace dump before/after every adversarial SendBlock / SendBlocksProof / SendTransactionsProof, end-of-scenario membership check of every stored transaction and header in the generated chain",
+    level_text="In generated sync histories with registered scripts and outstanding fetch requests, every adversarial answer - right header with a substituted body (output edited, transaction added / removed, body of another block, witness or extension edited), unrequested blocks, headers outside the request / forged / duplicated, found reported as missing, altered proof items, proofs against an unproven last header, forged Merkle lemmas / indices / witnesses roots, replaced transactions - leaves the Cell*, Tx*, TxHash, BlockHash and BlockNumber keyspaces unchanged, and at the end every stored transaction and header is one of the chain.",
+    level_note="bodies colliding on transactions_root are out of scope (hash collision)",
+)
